@@ -427,3 +427,16 @@ def _invert_cases():
             def build(f, n=n, inplace=inplace):
                 return dict(self=mk_MA(f, 'M', f.int('L', lo=1), n), inplace=inplace)
             yield 'rank=%d,inplace=%s' % (n, inplace), build
+    for n in RANKS_QUICK[:2]:
+        for how in ('scaled in place', 'one pair re-assigned'):
+            def build_h(f, n=n, how=how):
+                # the same array was inverted (out of place) before and its contents were then edited in place: the
+                # result must be the inverse of the *current* contents
+                M = mk_MA(f, 'M', f.int('L', lo=1), n)
+                f.call(M, 'invert')
+                if how == 'scaled in place':
+                    f.call(M, '__imul__', f.real('h_c', pos=True))
+                else:
+                    f.call(M, '__setitem__', (LABELS[0], LABELS[n - 1]), f.array('h_v', (f.getattr(M, 'length'),)))
+                return dict(self=M, inplace=False)
+            yield 'rank=%d, after an earlier invert() and data %s' % (n, how), build_h
